@@ -581,7 +581,7 @@ const (
 // well-formed packet in the sense of the property text, written from the RTMP specification
 // and the constructors' documentation: optional trailing fields only after the preceding ones,
 // connect with its fixed name and transaction id 1, a connect response named _result, the
-// command object of createStream(-response)/publish/play present, one-byte FMS event data,
+// command object of a createStream response/publish/play present, one-byte FMS event data,
 // extra data only for SetBufferLength, representable strings
 func vC03Wf(p *vC03Pkt) bool {
 	if len(p.name) > 65535 || len(p.sname) > 65535 || len(p.stype) > 65535 || !vC03WfNode(p.obj) || !vC03WfNode(p.args) {
@@ -594,7 +594,7 @@ func vC03Wf(p *vC03Pkt) bool {
 		return string(p.name) == "_result"
 	case 2:
 		return p.obj != nil || p.args == nil
-	case 3, 4, 5, 6:
+	case 4, 5, 6:
 		return p.obj != nil
 	case 10:
 		if p.et == 0x1a && p.d > 255 {
@@ -1031,6 +1031,15 @@ func vC03RunRaw(c vSx, res *vC03Res) {
 		if rcv.Size() > len(data) {
 			res.bad("size", fmt.Sprintf("decoded packet reports Size() %d > %d input bytes", rcv.Size(), len(data)))
 		}
+		// what decoded is a fixed point: its own bytes decode, on a fresh receiver, to equal fields
+		if !p2 && e2 == nil {
+			again := vC03New(kind, tid)
+			if e3, p3 := vC03Unmarshal(again, b); p3 || e3 != nil {
+				res.bad("fixed-point", fmt.Sprintf("the re-marshalled bytes %x of a decoded %s do not decode (err %v, panic %v)", b, vC03KindName(kind), e3, p3))
+			} else if !vC03PktEqual(vC03DumpPkt(again), vC03DumpPkt(rcv)) {
+				res.bad("fixed-point", fmt.Sprintf("the re-marshalled bytes %x of a decoded %s decode to other field values", b, vC03KindName(kind)))
+			}
+		}
 	}
 }
 
@@ -1241,6 +1250,21 @@ func vC03Msgs(l []vSx) ([]vC03Msg, bool) {
 				return nil, false
 			}
 			out = append(out, vC03Msg{MessageType(s.l[1].u64()), s.l[2].b, nil})
+		case 2:
+			// (2 mt pkt): the command carried in message type mt (17/15: one format byte 0 first)
+			if len(s.l) != 3 || !s.l[1].isInt() {
+				return nil, false
+			}
+			p, ok := vC03PktFromSx(s.l[2])
+			if !ok || p.kind > 6 {
+				return nil, false
+			}
+			b, _, _ := vC03MarshalPk(vC03BuildPkt(p))
+			mt := MessageType(s.l[1].u64())
+			if mt == 17 || mt == 15 {
+				b = append([]byte{0}, b...)
+			}
+			out = append(out, vC03Msg{mt, b, p})
 		default:
 			return nil, false
 		}
@@ -1830,6 +1854,16 @@ func vC03GenTid(r *vRng) uint64 {
 }
 
 func vC03GenHistPkt(r *vRng) *vC03Pkt {
+	if r.chance(1, 60) {
+		// a payload of several hundred chunks (65535-byte strings) through the transport
+		p := vC03GenPkt(r, r.pickInt(2, 5, 6, 0), true, true)
+		if p.kind == 5 {
+			p.sname = vC03Long65535
+		}
+		if vC03Wf(p) {
+			return p
+		}
+	}
 	switch r.intn(12) {
 	case 0, 1:
 		return vC03GenPkt(r, 0, !r.chance(1, 8), false)
@@ -1921,6 +1955,13 @@ func vC03GenMsgs(r *vRng, rawOK bool, pre []*vC03Pkt) (ms []vSx, kinds []int, ty
 			if p.kind == 7 && p.n == 0 {
 				p.n = 4096
 			}
+		}
+		if p.kind <= 6 && r.chance(1, 8) {
+			mt := r.pickInt(17, 18, 15)
+			ms = append(ms, vL(vZ(2), vI(mt), vC03PktSx(p)))
+			kinds = append(kinds, p.kind)
+			types = append(types, mt)
+			continue
 		}
 		ms = append(ms, vL(vZ(0), vC03PktSx(p)))
 		kinds = append(kinds, p.kind)
@@ -2017,6 +2058,19 @@ func TestVerifC03(t *testing.T) {
 			p.x = vC03GenU32(k.rnd)
 		}
 		runOne(vL(vZ(0), vC03PktSx(p)))
+	}
+	// truncation sweep: every prefix of the bytes of some packets, on the receiver of their kind
+	// (each field boundary and every position inside a field is a cut)
+	for i, np := 0, k.N(12, 300); i < np; i++ {
+		kind := i % 11
+		p := vC03GenPkt(k.rnd, kind, true, false)
+		b := vC03Marshal(p)
+		if len(b) > 160 {
+			b = b[:160]
+		}
+		for cut := 0; cut <= len(b); cut++ {
+			runOne(vL(vZ(1), vI(kind), vU(p.tid), vB(b[:cut])))
+		}
 	}
 	n := k.N(2500, 40000)
 	for i := 0; i < n; i++ {
